@@ -1,4 +1,4 @@
 From Coq Require Import Extraction ExtrOcamlBasic ExtrOcamlString.
-From Verif Require Import GenC03.
+From Verif Require Import GenC03all.
 Extraction Language OCaml.
-Extraction "gen_c03.ml" GenC03.cases.
+Extraction "gen_c03.ml" GenC03all.cases_all.
